@@ -123,6 +123,29 @@ def inputs(ctx):
         for k, nodes in enumerate(shapes):
             for r in (["WebVTT"], ["DFXP"], ["SAMI"], ["DFXP", "WebVTT"], ["SAMI", "WebVTT"]):
                 ins.append({"id": "bl%d%s-%s" % (k, "c" if cls else "n", "-".join(r)), "k": "spans", "nodes": nodes, "route": r})
+    # SAMI sources that spell their spans <i> / <b> / <u>, the element running across line breaks
+    for k, nodes in enumerate(base if not ctx.quick else base[::3]):
+        # (one style per span: nested elements are several spans at once, outside the flat-span domain)
+        if any(n["t"] == "S" and len(n["st"]) != 1 for n in nodes):
+            continue
+        for r in (["DFXP"], ["SAMI"], ["WebVTT"]):
+            if ctx.quick and (k + len(r[0])) % 2:
+                continue
+            ins.append({"id": "tg%d-%s" % (k, r[0]), "k": "spans", "nodes": nodes, "route": r, "src": "SAMI-tags"})
+    # WebVTT: a span that is closed again, and later in the caption text at another position (the
+    # caption is written as two cue blocks): tags are balanced in each block
+    def T2(x, lay=None):
+        d = {"t": "T", "s": [ord(c) for c in x]}
+        if lay:
+            d["lay"] = lay
+        return d
+    for st in (["i"], ["i", "b"], ["b", "u"], ["i", "b", "u"]):
+        s1, s0 = {"t": "S", "on": True, "st": st}, {"t": "S", "on": False, "st": st}
+        for nodes in ([T2("plain ", "a"), s1, T2("MARKED", "a"), s0, T2(" tail", "a"), T2("elsewhere", "b")],
+                      [s1, T2("MARKED", "a"), s0, T2("elsewhere", "b"), s1, T2("again", "b"), s0],
+                      [T2("one", "a"), {"t": "BR"}, s1, T2("two", "a"), s0, {"t": "BR"}, T2("three", "b")],
+                      [s1, T2("open across", "a"), T2("two places", "b"), s0]):
+            ins.append({"id": "lp%d" % len(ins), "k": "spans", "nodes": nodes, "route": ["WebVTT"]})
     # every behaviour of the style-table model (MC_Styles): three styles in their definition order, one
     # italic, references between them, a span naming one of them; read and written again
     for k, c in enumerate(ctx._styles):
@@ -155,6 +178,18 @@ def inputs(ctx):
     from . import sccgen
     for k in range(200 if ctx.quick else 5000):
         ins.append({"id": "scc%d" % k, "k": "balanced", "scc": sccgen.popon_program(rng), "doubled": rng.random() < 0.5})
+    # runs of mid-row codes with no character between them (on, off, on / off, on, off ...) before text
+    kk = 0
+    for run in ([True, False, True], [False, True, False], [True, False], [True, False, True, False, True], [True, True, False]):
+        for lead in ("", "AB"):
+            syms = [{"k": "ENM"}, {"k": "RCL"}, {"k": "PAC", "r": 15, "c": 0, "i": False}]
+            if lead:
+                syms.append({"k": "CH", "a": 65, "b": 66})
+            syms += [{"k": "MID", "i": x} for x in run] + [{"k": "CH", "a": 97, "b": 98}, {"k": "CH", "a": 99, "b": 100}, {"k": "EOC"}]
+            lines = [{"tc": [0, 0, 10, 0], "drop": False, "syms": syms}, {"tc": [0, 0, 14, 0], "drop": False, "syms": [{"k": "EDM"}]}]
+            for doubled in (False, True):
+                ins.append({"id": "scm%d" % kk, "k": "balanced", "scc": lines, "doubled": doubled})
+                kk += 1
     # loads whose rows all open with an italic preamble, on adjacent and far-apart rows, one or two
     # loads per program: italics carried across one, two, three repositionings
     k = 0
@@ -178,11 +213,14 @@ def inputs(ctx):
     return ins
 
 
+LAYS = {"a": {"o": [["10", "%"], ["10", "%"]]}, "b": {"o": [["40", "%"], ["70", "%"]], "a": ["left", None]}}
+
+
 def _set_from_nodes(nodes, capclass=False):
     desc_nodes = []
     for n in nodes:
         if n["t"] == "T":
-            desc_nodes.append(["t", "".join(chr(c) for c in n["s"])])
+            desc_nodes.append(["t", "".join(chr(c) for c in n["s"])] + ([LAYS[n["lay"]]] if n.get("lay") else []))
         elif n["t"] == "BR":
             desc_nodes.append(["b"])
         else:
@@ -259,6 +297,22 @@ def _ref_doc_from_nodes(nodes, kind, mode):
         css += "\n.tint {color: yellow;}\n.loud {font-size: 120%;}"
     doc = render.sami_doc([("ENCC", "en-US")], [("1000", [("ENCC", body)]), ("2000", [("ENCC", "&nbsp;")])])
     return doc.replace("-->", css + "\n-->", 1)
+
+
+def _tag_doc_from_nodes(nodes):
+    """the node stream as a SAMI document that spells its spans <i> / <b> / <u> (innermost last)"""
+    from . import render
+    out = []
+    for n in nodes:
+        if n["t"] == "T":
+            out.append(_esc("".join(chr(c) for c in n["s"])))
+        elif n["t"] == "BR":
+            out.append("<br>")
+        elif n["on"]:
+            out.append("".join("<%s>" % x for x in sorted(n["st"])))
+        else:
+            out.append("".join("</%s>" % x for x in sorted(n["st"], reverse=True)))
+    return render.sami_doc([("ENCC", "en-US")], [("1000", [("ENCC", "".join(out))]), ("2000", [("ENCC", "&nbsp;")])])
 
 
 def _doc_from_nodes(nodes, kind):
@@ -494,7 +548,9 @@ def execute(inp):
             for c in cs.get_captions(lg):
                 caps.append(project_nodes(c))
         return {"k": "balanced", "caps": caps}
-    if inp.get("sg"):
+    if inp.get("src") == "SAMI-tags":
+        cs = READERS["SAMI"]().read(_tag_doc_from_nodes(inp["nodes"]))
+    elif inp.get("sg"):
         from . import render
         doc = render.dfxp_doc([("en-US", [('begin="00:00:01.000" end="00:00:02.000"',
                                            'a <span style="s_%s">bb</span>' % inp["sg"]["target"])])],
